@@ -127,12 +127,12 @@ POOL = {
     "u": [0, 1, 2, 3, 4, 5, 1 << 32, I63, I64 - 1, I64 - 2, I64 - 3],
     "i": [0, 1, -1, 2, 3, 5, 6, 7, 63, 64, 65, (1 << 31) - 1, -(1 << 31), 100, 17, 19],
     "t": [0, 1, 0x21, 0x28, 0x88, 0x110, 0x48, 0xfa0, 0x208, 7],
-    "f": [0, 1, -1, 2, 3, -2, (1 << 31) - 1],
+    "f": [0, 1, -1, 2, 3, 4, -2, (1 << 31) - 1],
     "d": ["0", "1.5", "-1", "1e300", "nan", "inf"],
     "x": [0, 1, 2, 4, 8, 15, 0xFFFFFFFF, 0x1000000, 0x2000000],
 }
 BASE = {"l": 0, "z": 1, "u": 0, "i": 1, "t": 0x88, "f": 0, "d": "1.5", "x": 0}
-SPECS = ["ab%20PHASE%20raw%20kc", "ac%20RAW%20UINT8%20skc", "ad%20BIT%20raw%20kca<2>%20kc", "recip%20RECIP%20raw%20kc", "newf%20RAW%20UINT8%201", "newc%20CONST%20UINT8%201", "bad%20line", "~", "@L70000", "raw%20RAW%20UINT8%201",
+SPECS = ["phase%20RAW%20UINT8%201", "const%20RAW%20UINT8%202", "ab%20PHASE%20raw%20kc", "ac%20RAW%20UINT8%20skc", "ad%20BIT%20raw%20kca<2>%20kc", "recip%20RECIP%20raw%20kc", "newf%20RAW%20UINT8%201", "newc%20CONST%20UINT8%201", "bad%20line", "~", "@L70000", "raw%20RAW%20UINT8%201",
          "nb%20BIT%20raw%2063%202", "nb%20BIT%20raw%200%2065", "/INCLUDE%20x", "np%20PHASE%20raw%2099999999999999999999",
          "nl%20LINCOM%204%20raw%201%200", "nr%20RAW%20UINT8%200", "nr%20RAW%20UINT8%204294967296", "META%20raw%20m2%20CONST%20UINT8%201"]
 # ops never driven by the generic sweep (reasons in notes/C10.md)
@@ -157,12 +157,19 @@ EXTRA = [("open_limit", (1,)), ("open_limit", (2,)), ("open_limit", (3,)), ("ope
 
 
 # a field of the kind each alter function is for, and its counterpart in the prefixed fragment
+# a valid call of the same kind made after a tuple whose 40 calls all failed: it must still work
+FOLLOW = {"alter_frameoffset64": "alter_frameoffset64 1 0 1", "alter_endianness": "alter_endianness 0x4 0 1", "alter_encoding": "alter_encoding 0x2000000 1 1",
+          "open_limit": "open_limit 3", "rename": "rename const fnewname 0", "move": "move const 1 0", "alter_raw": "alter_raw r16 0x22 2 1",
+          "add_const": "add_const fnewc 0x88 0x88 0", "add_raw": "add_raw fnewr 1 1 0", "add_spec": "add_spec fnews%20CONST%20UINT8%201 0",
+          "delete": "delete const 0", "include": "include sub/fnewfmt 0 0x10", "alter_linterp": "alter_linterp linterp ! other.txt 0",
+          "alter_carray": "alter_carray carray 0x88 6", "alter_sarray": "alter_sarray sarray 6", "alter_protection": "alter_protection 1 1",
+          "put_carray_slice": "put_carray_slice carray 1 2 0x88", "putdata64": "putdata64 r16 0 3 0 2 0x22", "uninclude": "uninclude 1 0"}
 KIND_FIELD = {"alter_linterp": ["linterp", "P_plint"], "alter_phase": ["phase", "P_pph"], "alter_bit": ["bit", "P_pbit"], "alter_sbit": ["sbit"],
               "alter_lincom": ["lincom", "P_plc"], "alter_polynom": ["poly", "P_ppoly"], "alter_recip": ["recip"], "alter_mplex": ["mplex"],
               "alter_window": ["win"], "alter_multiply": ["mult", "P_pmult"], "alter_divide": ["div"], "alter_indir": ["indir"],
               "alter_sindir": ["sindir"], "alter_const": ["const", "P_pconst"], "alter_carray": ["carray"], "alter_sarray": ["sarray"],
               "alter_raw": ["rc", "P_praw"], "alter_entry": ["phase", "P_plint"], "rename": ["phase", "P_pph", "raw/meta"],
-              "move": ["phase", "P_pph", "sconst", "kc"], "delete": ["const", "P_pconst", "raw", "kc", "kca", "kc/mv", "raw/meta", "carray"]}
+              "move": ["phase", "P_pph", "sconst", "kc"], "seek64": ["nofile", "raw", "xph"], "putdata64": ["nofile"], "getdata64": ["nofile"], "delete": ["const", "P_pconst", "raw", "kc", "kca", "kc/mv", "raw/meta", "carray"]}
 
 
 def arg_pool(op, sig, k):
@@ -175,14 +182,16 @@ def arg_pool(op, sig, k):
     # calls that would legitimately rewrite data files to astronomically many samples are not made
     if op == "alter_raw" and k == 2:
         return [0, 1, 2, 3, 1 << 32]
-    if op in ("alter_frameoffset64", "alter_entry") and c == "i" and k == len(sig) - 1:
+    if op == "alter_entry" and c == "i" and k == len(sig) - 1:
         return [0]
+    if op == "alter_frameoffset64" and c == "i" and k == len(sig) - 1:
+        return [0, 1]       # a shift with moved data: small offsets rewrite 100-byte files, huge ones fail while positioning
     if c != "s":
         return POOL[c]
     if op in ("add_spec", "alter_spec") and k == 0 or op in ("madd_spec", "malter_spec") and k == 0:
         return SPECS
     if op in ("include", "include_affix", "include_ns") and k == 0:
-        return ["sub/format1", "nosuch", "~", "@L5000", "format", "sub/newfmt"]
+        return ["sub/format1", "nosuch", "~", "@L5000", "format", "sub/newfmt", "sub/badfrag"]
     if op == "match_entries" and k == 0:
         return ["!", "ra.*", "(", "@L5000", "~"]
     if op in ("nentries", "entry_list", "raw_close", "sync", "flush", "reference") and k == 0:
@@ -213,7 +222,7 @@ def base_arg(op, sig, k):
     if c != "s":
         if op in ("add_lincom", "alter_lincom", "madd_lincom") and c == "i":
             return 1
-        if op in ("alter_frameoffset64", "alter_entry", "alter_raw") and c == "i" and k == len(sig) - 1:
+        if op in ("alter_entry", "alter_raw") and c == "i" and k == len(sig) - 1:
             return 0
         return BASE[c]
     p = arg_pool(op, sig, k)
@@ -249,6 +258,11 @@ def gen_sweep(ops, rng, per_op_random):
                 lim = 60 if per_op_random <= 6 else 400
                 for t in (prod if len(prod) <= lim else rng.sample(prod, min(len(prod), lim))):
                     prio.append((alt,) + tuple(t))
+        # functions whose arguments are all scalars: the full product of the boundary pools (kept in the quick tier)
+        if sig and "s" not in sig and "d" not in sig:
+            prod = list(itertools.product(*[arg_pool(op, sig, k) for k in range(len(sig))]))
+            lim = 260 if per_op_random <= 6 else 2000
+            prio += prod if len(prod) <= lim else rng.sample(prod, min(len(prod), lim // 2))
         if op.startswith("alter_") and sig and sig[0] == "s" and len(sig) > 2:
             for alt in AFFIXED:
                 pools = [arg_pool(op, sig, k) for k in range(1, len(sig))]
@@ -264,7 +278,9 @@ def gen_sweep(ops, rng, per_op_random):
             if t in seen:
                 continue
             seen.add(t)
-            cases.append({"op": op, "args": t, "prio": t in prio, "cmds": ["rep %d %s %s" % (REPS, op, " ".join(str(a) for a in t))]})
+            cases.append({"op": op, "args": t, "prio": t in prio, "cmds": (["rmfile nofile"] if t and t[0] == "nofile" else []) +
+                          ["rep %d %s %s" % (REPS, op, " ".join(str(a) for a in t))] +
+                          (["op " + FOLLOW[op]] if op in FOLLOW else [])})
     return cases
 
 
@@ -283,6 +299,13 @@ def internal_key(op):
     if op in SLICE_FN and False:
         return "C10/slice-wrap/" + SLICE_FN[op]
     return "C10/internal-error/bad-data-type" if op in BADTYPE_OPS else "C10/internal-error/%s" % op.replace("madd_", "add_")
+
+
+def partial_key(c, rp):
+    """GD_ALL_FRAGMENTS operations that stop at a protected fragment after having changed the earlier ones"""
+    if c["op"] in ("alter_encoding", "alter_endianness", "alter_frameoffset64") and int(c["args"][1]) == -1 and rp["errl"] == -22:
+        return "C10/all-fragments-partial/%s" % c["op"]
+    return None
 
 
 def leak_key(op, args, err):
@@ -529,11 +552,11 @@ def main():
     # fragment index
     for op, sig in ops:
         if sig == "f":
-            for i in (0, 1, 2, 3, -1, -2, (1 << 31) - 1, -(1 << 31)):
-                acc = M.q(("fraga %d 3" if op == "rewrite_fragment" else "frag %d 3") % i) == "1"
+            for i in (0, 1, 2, 3, 4, -1, -2, (1 << 31) - 1, -(1 << 31)):
+                acc = M.q(("fraga %d 4" if op == "rewrite_fragment" else "frag %d 4") % i) == "1"
                 if op == "parent_fragment" and i == 0:
                     acc = False        # the root fragment has no parent: GD_E_BAD_INDEX is documented
-                addA(op, (i,), {"pred": None, "accept": acc, "truth": 0 <= i < 3, "tag": "frag"})
+                addA(op, (i,), {"pred": None, "accept": acc, "truth": 0 <= i < 4, "tag": "frag"})
                 nontrivial.add((op, i))
     ph("builds done; running A (%d cases)" % len(A))
     t_a = _t.time()
@@ -619,7 +642,7 @@ def main():
     for k in range(nseq):
         mode = rng.choice(["RDWR", "RDWR", "RDWR", "RDONLY"])
         p0, p1 = rng.choice(["none", "none", "format", "all"]), rng.choice(["none", "format"])
-        M.q("reset %d %d %d 0" % (mode == "RDWR", {"none": 0, "format": 1, "data": 2, "all": 3}[p0], {"none": 0, "format": 1}[p1]))
+        M.q("reset %d %d %d 0 1" % (mode == "RDWR", {"none": 0, "format": 1, "data": 2, "all": 3}[p0], {"none": 0, "format": 1}[p1]))
         for (nm, kd, fr, vals, refs) in ents:
             M.q("ent %s %d %d %s | %s" % (nm, kd, fr, " ".join(map(str, vals)), " ".join(refs)))
         cmds, preds = [], []
@@ -644,7 +667,7 @@ def main():
                 q = "call getdata %s %d %d %d %d 1" % (nm, ff, fs, nf, ns); cmd = "op getdata64 %s %d %d %d %d 1" % (nm, ff, fs, nf, ns)
             elif w < 0.75:
                 nm = rng.choice(["n1", "n2", "n3", "raw", "const"])
-                fr = rng.choice([0, 0, 1, 3, -1])      # (fragment 2 carries a prefix: names are not modelled)
+                fr = rng.choice([0, 0, 1, 4, -1])      # (fragments 2 and 3 carry a prefix: names are not modelled)
                 q = "call add %s %d 1" % (nm, fr); cmd = "op add_const %s 0x28 0x28 %d" % (nm, fr)
             elif w < 0.90:
                 nm = rng.choice(["n1", "n2", "const", "sconst", "carray", "nosuch", "scarray"])
@@ -653,7 +676,7 @@ def main():
                 nm, nn = rng.choice(["n1", "const", "sconst", "nosuch", "n2"]), rng.choice(["n1", "n2", "n3", "const", "raw"])
                 q = "call rename %s %s" % (nm, nn); cmd = "op rename %s %s 0" % (nm, nn)
             elif w < 0.97:
-                nm, fr = rng.choice(["n1", "const", "sconst", "scarray", "nosuch", "carray"]), rng.choice([0, 1, 1, 3, -1])
+                nm, fr = rng.choice(["n1", "const", "sconst", "scarray", "nosuch", "carray"]), rng.choice([0, 1, 1, 4, -1])
                 q = "call move %s %d" % (nm, fr); cmd = "op move %s %d 0" % (nm, fr)
             else:
                 nm, ln = rng.choice(["carray", "scarray", "const", "nosuch", "raw"]), rng.choice([0, 1, 2, 4, 6, 1 << 61, I63, I64 - 1])
@@ -733,10 +756,14 @@ def main():
                 (what, c, "D->recurse_level is %d after %d calls (first error %d, last error %d); interleaved valid reads failing: %d" % (
                     rp["lend"], REPS, rp["err"], rp["errl"], rp["probe"])))
         elif rp["dirty"]:
-            viol.setdefault(internal_key(c["op"]) if rp["internal"] else "C10/dirty-fail/%s/E%d" % (c["op"], rp["err"]), []).append(
+            viol.setdefault(internal_key(c["op"]) if rp["internal"] else partial_key(c, rp) or "C10/dirty-fail/%s/E%d" % (c["op"], rp["err"]), []).append(
                 (what, c, "%d failing calls (error %d) changed the observable snapshot" % (rp["dirty"], rp["err"])))
+        fo = parse_op([l for l in r["out"][r["out"].index(next(x for x in r["out"] if x.startswith("REP "))):]]) if c["op"] in FOLLOW else None
+        if fo is not None and rp["nf"] == REPS and fo[1] != 0 and not (rp["lmax"] or rp["dirty"]):
+            viol.setdefault("C10/future/%s/followup" % c["op"], []).append(
+                (what, c, "all %d calls failed (error %d); the valid follow-up call `%s` on the same handle then fails with error %d" % (REPS, rp["err"], FOLLOW[c["op"]], fo[1])))
         elif rp.get("fl"):
-            viol.setdefault("C10/flush-after-failed/%s/E%d" % (c["op"], rp["err"]), []).append(
+            viol.setdefault(partial_key(c, rp) or "C10/flush-after-failed/%s/E%d" % (c["op"], rp["err"]), []).append(
                 (what, c, "all %d calls failed (error %d), yet a following gd_metaflush rewrote files of the dirfile: a failed call left a fragment marked modified" % (REPS, rp["err"])))
         elif rp["nf"] == REPS and rp["probe"]:
             viol.setdefault("C10/future/%s/E%d" % (c["op"], rp["err"]), []).append(
@@ -750,6 +777,59 @@ def main():
                        "others": [w for w, _, _ in l[1:8]]})
 
     ph("B done")
+    # ---------------------------------------------------------------- E. histories on one handle (handle-state functions interleaved with valid reads)
+    READS_E = [("getdata64 raw 0 0 1 0 1", 2), ("getdata64 r16 0 0 1 0 0x22", 1), ("getdata64 rc 0 0 1 0 0x110", 1), ("getdata64 sraw 0 0 1 0 1", 1),
+               ("getdata64 ac 0 0 1 0 1", 2), ("getdata64 P_praw 0 0 1 0 1", 1)]
+    LIM = [0, 1, 2, 3, 5, -1, -2, 1 << 40, 1 << 59, (I63 - 1) // 16, (I63 - 1) // 8, (I63 - 1) // 8 + 1, 1 << 61, (1 << 62) + 1]
+    hist = []
+    for a, b in itertools.product(LIM, LIM):
+        hist.append([("open_limit %d" % a, None)] + READS_E[:4] + [("open_limit %d" % b, None)] + READS_E)
+    nh = 150 if not chk.thorough else 2000
+    for _ in range(nh):
+        h = []
+        for _ in range(rng.randint(3, 7)):
+            w = rng.random()
+            if w < 0.5:
+                h.append(("open_limit %d" % rng.choice(LIM), None))
+            elif w < 0.65:
+                h.append(("raw_close %s" % rng.choice(["!", "raw", "sraw", "nosuch"]), None))
+            elif w < 0.75:
+                h.append(("sync %s" % rng.choice(["!", "raw"]), None))
+            elif w < 0.85:
+                h.append(("seek64 %s 0 %d %d" % (rng.choice(["raw", "r16", "sraw"]), rng.choice([0, 3, -5]), rng.choice([0, 4])), None))
+            else:
+                h.append((rng.choice(["alter_frameoffset64 4611686018427387904 0 1", "getdata64 raw 0 9223372036854775806 0 5 1", "mplex_lookback -7",
+                                      "flush nosuch", "desync 0"]), None))
+            h += rng.sample(READS_E, rng.randint(2, 6))
+        hist.append(h)
+    E = [{"id": "E%d" % k, "hist": h, "cmds": ["op " + x for x, _ in h]} for k, h in enumerate(hist)]
+    resE = run_cases(exe, E)
+    violE = {}
+    for c in E:
+        r = resE.get(c["id"])
+        what = "history [%s]" % "; ".join(x for x, _ in c["hist"])
+        if r is None:
+            continue
+        if r["crash"]:
+            opn = "open_limit" if any(x.startswith("open_limit") for x, _ in c["hist"]) else c["hist"][0][0].split()[0]
+            violE.setdefault("C10/history-crash/%s" % opn, []).append((what, c, "the sequence does not run to its end: " + r["crash"][-1200:]))
+            continue
+        got = [tuple(map(int, m.groups())) for m in re.finditer(r"R (-?\d+) E (-?\d+) L (-?\d+)", "\n".join(r["out"]))]
+        chk.cov["evaluations"] += len(got)
+        for (x, want), g in zip(c["hist"], got):
+            nontrivial.add(("hist", x.split()[0], g[1]))
+            if g[2] != 0:
+                violE.setdefault(leak_key(x.split()[0], x.split()[1:], g[1]), []).append((what, c, "%s leaves D->recurse_level = %d" % (x, g[2])))
+            if want is not None and (g[1] != 0 or g[0] != want):
+                violE.setdefault("C10/future/valid-read-after-history", []).append(
+                    (what, c, "the valid read `%s` returns %d samples, error %d (expected %d, 0)" % (x, g[0], g[1], want)))
+                break
+    for key, l in sorted(violE.items()):
+        what, c, desc = l[0]
+        found_any = True
+        chk.violation(key, "%s: %s (%d such histories)" % (what[:600], desc[:900], len(l)),
+                      {"kind": "impl-vs-spec", "history": [x for x, _ in c["hist"]], "count": len(l), "detail": desc,
+                       "how": "printf 'case x RDWR none none none 0\\n%s\\n' | harness/C10/api <dir>" % "\\n".join(c["cmds"])})
     # ---------------------------------------------------------------- D. replay the recorded witnesses
     for f in chk.known:
         w = f.get("witness", {})
